@@ -95,6 +95,11 @@ def lganm_spec(g, p, seeds, force_explicit=False, force_ranges=False, dtype="<f8
         spec["means"] = enc((lo, round(lo + r2(g, 0, 2), 2)))
         vlo = r2(g, 0.2, 1)
         spec["variances"] = enc((vlo, round(vlo + r2(g, 0, 2), 2)))
+        r = g.random()               # one sampled and one explicit parameter, either way round
+        if r < 0.2:
+            spec["means"] = enc(rand_vec(g, p, -2, 2))
+        elif r < 0.4:
+            spec["variances"] = enc(rand_vec(g, p, 0.2, 2))
         spec["seed"] = g.choice(seeds)
     else:
         spec["means"] = enc(rand_vec(g, p, -2, 2))
@@ -147,7 +152,11 @@ def anm_ivs(g, p, how=None):
         return []
     k = g.randint(1, min(p, 3)) if g.random() < 0.88 else p
     ts = g.sample(range(p), k)
-    return [[t, rand_noise_spec(g)] for t in ts]
+    out = [[t, rand_noise_spec(g)] for t in ts]
+    for item in out:
+        if g.random() < 0.3:
+            item[1] = ["held", "h%d" % g.getrandbits(20), item[1]]     # a distribution object the caller re-uses
+    return out
 
 
 def seed_value(s):
